@@ -1,5 +1,5 @@
 (* Props/C04.v — property C04: every supplied scenario runs, nothing else runs, the run terminates. *)
-From CV Require Import Model.Base Model.Events Model.Sched Proofs.BaseP Proofs.SchedP Proofs.SchedP2 Proofs.SchedP3.
+From CV Require Import Model.Base Model.Events Model.Sched Proofs.BaseP Proofs.SchedP Proofs.SchedP2 Proofs.SchedP3 Proofs.SchedP4.
 
 (* nothing runs that was not dispatched: a scenario event always belongs to an entry of `running` *)
 Theorem C04_only_dispatched_run :
@@ -13,3 +13,17 @@ Proof. exact step_scen_events. Qed.
 Theorem C04_end_is_final :
   forall K c s l s' o, Inv K s -> frame_ok s -> pc s = Done -> step c s l = Some (s', o) -> o = [] /\ pc s' = Done.
 Proof. exact done_is_silent. Qed.
+
+(* conservation, whole run: for every parser schedule (any label list the model accepts), once the loop has
+   ended without a broken flow every scenario handed to the runner has had its Started event emitted *)
+Theorem C04_every_supplied_scenario_starts :
+  forall c ls s tr, exec c ls = Some (s, tr) -> pc s = Done -> flow s <> Break ->
+    forall x, In x (inserted_ids ls) -> In x (started_ids tr).
+Proof. exact all_supplied_started. Qed.
+Print Assumptions C04_every_supplied_scenario_starts.
+
+(* ... and at every point of every run, a scenario whose Started was emitted had been handed to the runner *)
+Theorem C04_nothing_else_starts :
+  forall c ls s tr, exec c ls = Some (s, tr) -> forall x, In x (started_ids tr) -> In x (inserted_ids ls).
+Proof. exact only_supplied_started. Qed.
+Print Assumptions C04_nothing_else_starts.
